@@ -220,7 +220,7 @@ impl Property for C06 {
         vec!["paging writes use odd ports with A15=0, A1=0 and A5-A7 set (no other device selected); decoys use A15=1 or A1=1", "the 8 bytes of bank 2 that hold the stub are not written by the history (they are restored after each instruction-level op)", "instruction-level op: instructions that read a port, or write an even port that also matches the paging decode, are don't-cares (values adopted from the machine); F3/F5, MEMPTR and Q are not compared (C01)"]
     }
     fn expected_probes(&self) -> Vec<&'static str> {
-        vec!["write_after_lock", "alias_bank5_at_c000", "alias_bank2_at_c000", "write_to_rom", "decoy_port", "sweep", "host_rom", "host_rom_midrun", "snapshot_loaded_midrun", "paging_on_48k", "im2_vector_fetch", "paging_by_other_out_forms"]
+        vec!["write_after_lock", "alias_bank5_at_c000", "alias_bank2_at_c000", "write_to_rom", "decoy_port", "sweep", "host_rom", "host_rom_midrun", "snapshot_loaded_midrun", "snapshot_rejected_midrun", "paging_on_48k", "im2_vector_fetch", "paging_by_other_out_forms"]
     }
 
     fn gen(&self, rng: &mut Rng, tier: Tier, _idx: u64) -> Scenario {
@@ -274,7 +274,9 @@ impl Property for C06 {
                 12..=16 => sc.op("rd", &[rng.range(0, 0xFFFF)]),
                 17 => sc.op("peek", &[rng.range(0, 0xFFFF)]),
                 18 => {
-                    if rng.chance(1, 6) {
+                    if rng.chance(1, 8) {
+                        sc.op("rej", &[rng.range(0, 255)]);
+                    } else if rng.chance(1, 6) {
                         sc.op("snap", &[rng.range(0, 255)]);
                     } else if rng.chance(1, 6) {
                         // the host supplies a (different) ROM set while the machine is running
@@ -453,6 +455,36 @@ impl Property for C06 {
                         return Err(Fail::new("C06.peek", &format!("machine={},window={}", machine, addr as usize / PAGE), format!("peek({:04X}) = {:02X}, expected {:02X}", addr, e.peek(addr), m.read(addr))));
                     }
                 }
+                "rej" => {
+                    // the host offers a file the loader rejects: nothing of the running machine changes, in
+                    // particular an accepted paging lock stays in force
+                    ctx.probe("snapshot_rejected_midrun");
+                    use rustzx_core::host::Snapshot;
+                    let r = match op.arg(0) % 4 {
+                        0 => e.load_snapshot(Snapshot::Sna(SimAsset::plain(vec![0u8; 100]))),
+                        1 => e.load_snapshot(Snapshot::Szx(SimAsset::plain(b"ZXSX\x01\x04\x00\x00........".to_vec()))),
+                        2 => {
+                            let mut v = vec![0u8; if m128 { 49179 } else { 131103 }];
+                            v[25] = 1;
+                            e.load_snapshot(Snapshot::Sna(SimAsset::plain(v)))
+                        }
+                        _ => {
+                            // an SZX for the other machine model
+                            let o = crate::snapfmt::SnapState::new(!m128);
+                            e.load_snapshot(Snapshot::Szx(SimAsset::plain(crate::snapfmt::write_szx(&o, &crate::snapfmt::SzxOptions::default()))))
+                        }
+                    };
+                    if r.is_ok() {
+                        // accepted after all (not this check's business): the history ends here
+                        break;
+                    }
+                    for w in 0..4u32 {
+                        let a = (w * PAGE as u32 + 0x0555) as u16;
+                        if e.peek(a) != m.read(a) {
+                            return Err(Fail::new("C06.rejected_load_map", &format!("machine={},window={}", machine, w), format!("after a rejected snapshot file address {:04X} reads {:02X}, expected {:02X}", a, e.peek(a), m.read(a))));
+                        }
+                    }
+                }
                 "snap" => {
                     // the host saves nothing and loads a snapshot describing exactly the current memory and
                     // paging state (SNA or SZX): the memory map afterwards is the one the file describes
@@ -463,15 +495,18 @@ impl Property for C06 {
                         s.banks[b].copy_from_slice(&m.banks[b]);
                     }
                     s.port_7ffd = if m128 { m.last_7ffd } else { 0 };
-                    s.cpu.pc = STUB;
+                    // (the CPU state of the file does not matter here: every op sets its own; PC may as well
+                    // point into the ROM, and the 128K SNA's TR-DOS byte may hold anything)
+                    s.cpu.pc = if op.arg(0) & 8 != 0 { (op.arg(0) as u16).wrapping_mul(97) & 0x3FFF } else { STUB };
                     s.cpu.sp = 0x9000;
+                    s.sna_trdos = if op.arg(0) & 16 != 0 { 1 } else { (op.arg(0) >> 5) as u8 & 3 };
                     s.border = (op.arg(0) >> 1) as u8 & 7;
                     let r = if fmt == 0 {
                         let bytes = if m128 { crate::snapfmt::write_sna128(&s) } else { crate::snapfmt::write_sna48(&s) };
                         if !m128 {
                             // the 48K format keeps PC on the stack: those two bytes are part of the loaded image
-                            m.write(0x8FFE, STUB as u8);
-                            m.write(0x8FFF, (STUB >> 8) as u8);
+                            m.write(0x8FFE, s.cpu.pc as u8);
+                            m.write(0x8FFF, (s.cpu.pc >> 8) as u8);
                         }
                         e.load_snapshot(rustzx_core::host::Snapshot::Sna(SimAsset::plain(bytes)))
                     } else {
